@@ -321,6 +321,7 @@ func (st *State) newRef(prefix string) string {
 	st.assume(fmt.Sprintf("(and (> %s 1000) (not (select %s %s)))", r, a, r))
 	st.setArr(allocName, "(Array Int Bool)", store(a, r, "true"))
 	st.nonnil[r] = true
+	st.private[r] = true
 	return r
 }
 
